@@ -22,6 +22,8 @@ def show_int(av):
 def guard_str(g):
     if g is None:
         return "-"
+    if g[0] == "keep":
+        return g[1]
     may_none, mask = g
     parts = []
     if mask:
@@ -62,6 +64,11 @@ class Behaviour(Auto):
     def initial(self):
         return ("entry", None)
 
+    def _lastg(self, src):
+        if "|" in src:
+            return self._parse_guard(src.rsplit("|", 1)[1]) if False else ("keep", src.rsplit("|", 1)[1])
+        return None
+
     def _symlabel(self, where):
         """'#<fn>:<var>+<d>' when the offset operand is var + const in its function (R3 of C08)"""
         if not self.sym_labels:
@@ -94,9 +101,26 @@ class Behaviour(Auto):
                 if name in ("advance", "line_at_offset") and len(ev[2]) > 1:
                     arg = show_int(ev[2][1]) + self._symlabel(where)
                 dst = "%s(%s)" % (name, arg)
+                if self.sym_labels:
+                    # keep paths with differently refined look-ahead results apart
+                    lg = g if g is not None else (self._lastg(src))
+                    if lg is not None:
+                        dst += "|" + guard_str(lg)
                 self.transitions.add((src, g, dst))
                 return (dst, None)
             return state
+        if ev[0] == "narrow" and ev[1] == "look" and g is None and self.sym_labels and src != "entry":
+            # a look-ahead result refined after other primitives ran (e.g. `advance(1); if byte == LF`):
+            # make the refinement visible as a node of its own
+            now = ev[2]
+            names = dict(now[2])
+            mask = 0
+            if "Some" in names and names["Some"] is not None:
+                p = names["Some"]
+                mask = p[1] if p[0] == "byte" else ALL
+            dst = "refined(%s)" % guard_str(("None" in names, mask))
+            self.transitions.add((src, None, dst))
+            return (dst, None)
         if ev[0] == "narrow" and ev[1] == "look" and g is not None:
             now = ev[2]
             names = dict(now[2])
@@ -111,7 +135,7 @@ class Behaviour(Auto):
         return state
 
 
-def behaviour(facts, inst_key, args, extra_models=None, sym_labels=False):
+def behaviour(facts, inst_key, args, extra_models=None, sym_labels=False, raw=False):
     """returns (transitions set, engine).  transitions include ('..','..','ret:<v>') rows"""
     auto = Behaviour(sym_labels=sym_labels)
     eng = Engine(facts, auto)
@@ -126,6 +150,8 @@ def behaviour(facts, inst_key, args, extra_models=None, sym_labels=False):
         A.MODELS.update(saved)
     for av, st in res:
         auto.transitions.add((st[0], st[1], "ret:" + render_ret(av)))
+    if raw:
+        return set((s0, guard_str(g0), d0) for s0, g0, d0 in auto.transitions), eng
     merged = {}
     for src, g, dst in auto.transitions:
         k = (src, dst)
